@@ -198,6 +198,13 @@ def run_case(case):
             sub_combos = ({a: list(v) for a, v in sub}
                           if case.get("sub_spelling") == "dict" else
                           tuple((a, list(v)) for a, v in sub)) if sub else None
+            own_args = bool(case.get("runner_fn_args")) and \
+                farmer_kind != "sampler" and not case.get("case_dicts")
+            if own_args:
+                # the runner itself says in which order positional cases are
+                # to be read (the function takes **kwargs: no signature)
+                rm.fn_args = tuple(fn_args)
+                rt.fn_args = tuple(fn_args)
             coords = {a: sorted(set(c[i] for c in cs["cases"]))
                       for i, a in enumerate(case_args)}
             coords.update({a: list(v) for a, v in sub})
@@ -287,8 +294,8 @@ def run_case(case):
                     dcs.append(dict(it_[r_:] + it_[:r_]))
                 crop.sow_cases(None, dcs, combos=sub_combos, verbosity=0)
             else:
-                crop.sow_cases(tuple(case_args), cases_in,
-                               combos=sub_combos, verbosity=0)
+                crop.sow_cases(None if own_args else tuple(case_args),
+                               cases_in, combos=sub_combos, verbosity=0)
         B = len(crops.batch_ids(main, "c6"))
         reloaded = False
         if case.get("reload_before_grow"):
@@ -355,7 +362,9 @@ def run_case(case):
                     ft.harvest_combos(combos, overwrite=case.get("overwrite"),
                                       verbosity=0)
                 else:
-                    ft.harvest_cases(cases_in, fn_args=tuple(case_args),
+                    ft.harvest_cases(cases_in,
+                                     fn_args=None if own_args else
+                                     tuple(case_args),
                                      combos=sub_combos,
                                      overwrite=case.get("overwrite"),
                                      verbosity=0)
@@ -365,7 +374,9 @@ def run_case(case):
                 if case["mode"] == "combos":
                     want = rt.run_combos(combos, verbosity=0, **kw)
                 else:
-                    want = rt.run_cases(cases_in, fn_args=tuple(case_args),
+                    want = rt.run_cases(cases_in,
+                                        fn_args=None if own_args else
+                                        tuple(case_args),
                                         combos=sub_combos, verbosity=0, **kw)
         except Exception as e:
             direct_exc = e
@@ -504,7 +515,8 @@ def strategy(draw):
             "grow_workers": draw(st.sampled_from([False, False, False,
                                                   True])),
             "sibling": draw(st.sampled_from([False, False, True])),
-            "case_dicts": draw(st.booleans())}
+            "case_dicts": draw(st.booleans()),
+            "runner_fn_args": draw(st.sampled_from([False, False, True]))}
     if case["dname"].endswith(".dmp"):
         case["engine"] = "joblib"
     if farmer == "sampler":
